@@ -19,7 +19,7 @@ from props.c16 import net_struct, model_struct, same_struct, key_json
 ID = 'C04'
 LEAN_MODULE = 'CC.Properties.C04'
 LEVEL = 'proof'
-THEOREMS = ['CC.C04_linear', 'CC.C04_superpose', 'CC.C04_scale', 'CC.C04_scale_power', 'CC.C04_zero_all',
+THEOREMS = ['CC.C04_linear', 'CC.C04_superpose', 'CC.C04_reported_superpose', 'CC.C04_scale', 'CC.C04_scale_power', 'CC.C04_zero_all',
             'CC.physEqs_lin', 'CC.C16_zero_voltage_spec', 'CC.C16_zero_current_spec']
 LEAN_MODULE_EXTRA = ['CC.Properties.C16']
 OPEN_STATEMENTS = ['superposition for skeletons in which the zeroing operation changes the record class (Thevenin lossy source zeroed into a Norton impedance): electrically the same immittance; covered by the metamorphic oracle']
